@@ -42,7 +42,7 @@ func loadSynth(sp synthfont.Spec) (*fontEntry, error) {
 	if err != nil {
 		return nil, fmt.Errorf("generated font rejected by the port's loader: %v", err)
 	}
-	fe := &fontEntry{rel: fmt.Sprintf("synth:%s/%s/n%d/d%d/s%d/%d", sp.Kind, sp.Feature, sp.N, sp.Depth, sp.Scripts, sp.Seed), face: face, synth: &sp}
+	fe := &fontEntry{rel: fmt.Sprintf("synth:%s/%s/n%d/d%d/s%d/m%d/%d", sp.Kind, sp.Feature, sp.N, sp.Depth, sp.Scripts, sp.Mix, sp.Seed), face: face, synth: &sp}
 	fe.traits = corpus.Traits{GSUB: len(face.GSUB.Lookups) > 0, GPOS: len(face.GPOS.Lookups) > 0, Glyf: true}
 	fe.hb = hbref.NewFace(data, 0)
 	if fe.hb.GlyphCount() == 0 {
@@ -173,6 +173,9 @@ func genSynthCase(t *rapid.T) (*fontEntry, *Case) {
 func synthLabels(fe *fontEntry, reversed bool) []string {
 	sp := fe.synth
 	out := []string{"synth_font", "synth_kind_" + sp.Kind}
+	if sp.Mix == 1 {
+		out = append(out, "synth_cursive_mix")
+	}
 	if d := sp.Nesting(); d > 0 {
 		out = append(out, fmt.Sprintf("synth_nesting_depth_%02d", d))
 	}
